@@ -316,4 +316,12 @@ VARIANTS = [
     V('C01', 'S', 'named-param goto: two equality tests', 'jedi/inference/names.py', "            if trailer.type in ('trailer', 'decorator'):", "            if trailer.type == 'trailer' or trailer.type == 'decorator':"),
     V('C01', 'B', 'left operand of a string addition taken untested', 'jedi/api/file_name.py', "                if child_node.type in ('operator', 'keyword'):", "                if child_node.type in ('keyword',):", 'C01.j'),
     V('C01', 'S', 'left operand test spelled as two comparisons', 'jedi/api/file_name.py', "                if child_node.type in ('operator', 'keyword'):", "                if child_node.type in ('operator', 'keyword', 'error_leaf'):"),
+    V('C07', 'B', 'renames applied by string prefix', RFA, "                if p == from_ or from_ in p.parents:\n                    p = to / p.relative_to(from_)\n            return p",
+      "                if str(p).startswith(str(from_)):\n                    p = Path(str(to) + str(p)[len(str(from_)):])\n            return p", 'C07.h'),
+    V('C07', 'B', 'renamed module file itself not mapped', RFA, "                if p == from_ or from_ in p.parents:", "                if from_ in p.parents:", 'C07.h'),
+    V('C07', 'S', 'renames applied with is_relative_to', RFA, "                if p == from_ or from_ in p.parents:", "                if p.is_relative_to(from_):"),
+    V('C19', 'B', 'gitignore folders compared as string prefixes', REF, "        if curr_path == p[0] or curr_path.startswith(os.path.join(p[0], ''))", "        if curr_path.startswith(p[0])", 'C19.f'),
+    V('C19', 'S', 'gitignore folders compared with + os.sep', REF, "        if curr_path == p[0] or curr_path.startswith(os.path.join(p[0], ''))", "        if curr_path == p[0] or curr_path.startswith(p[0] + os.path.sep)"),
+    V('C10', 'B', 'dotted name from a string prefix', SYS, "                elif rest and not p.endswith((os.path.sep, '/')):\n", "                elif rest and False:\n", 'C10.f'),
+    V('C10', 'S', 'separator test of the dotted-name remainder restructured', SYS, "                elif rest and not p.endswith((os.path.sep, '/')):\n", "                elif rest and not (p.endswith(os.path.sep) or p.endswith('/')):\n"),
 ]
